@@ -10,9 +10,12 @@
     b58DecodeRangesString : the digit loop is a `range` over the string (or over `[]rune(s)`): positions = code points
     b58DecodeLookup       : what is looked up in the alphabet at such a position —
                             0 the byte `s[i]`, 1 the code point narrowed to 8 bits (`byte(c)`), 2 the code point itself
+                            (every use a comparison / index / switch at full width), 3 the code point used in a way
+                            the extractor does not classify (handed to a callee, converted, stored) — modelled like 1,
+                            the worst case
 
   Proofs/C15Str.lean proves that for lookup 0 and 2 the loop computes `Base58.value?` (the bytewise model all other
-  theorems are about) and that for lookup 1 it does not. `decodeRune` is tied to Go's `range` by the harness
+  theorems are about) and that for lookup 1 (and 3, which is modelled the same) it does not. `decodeRune` is tied to Go's `range` by the harness
   (oracle op `runes`).
 -/
 import GocoinV.Model.Base58
@@ -67,8 +70,8 @@ def runes (s : Bytes) : List (Nat × Nat) := runesFrom s 0 0
 /-- the alphabet lookup at a position where the byte is `c` and the code point is `r` -/
 def lookupOf (lookup : Nat) (c : UInt8) (r : Nat) : Option Nat :=
   if lookup = 0 then chr2int c
-  else if lookup = 1 then chr2int (UInt8.ofNat (r % 256))
-  else if r < 256 then chr2int (UInt8.ofNat r) else none
+  else if lookup = 2 then (if r < 256 then chr2int (UInt8.ofNat r) else none)
+  else chr2int (UInt8.ofNat (r % 256))
 
 /-- the digit loop over the code points of the string -/
 def valueR (lookup : Nat) : Bytes → Nat → Nat → Option Nat
